@@ -64,6 +64,10 @@ func (c *memberEventCoalescer) Flush(outCh chan<- Event) {
 		newEvent.Members = append(newEvent.Members, *cevent.Member)
 	}
 
+	// Start the next quantum with no pending events, otherwise a member
+	// whose latest event was an update is reported again by every flush.
+	c.latestEvents = make(map[string]coalesceEvent)
+
 	// Send out those events
 	for _, event := range events {
 		outCh <- *event
